@@ -199,6 +199,8 @@ class Thread:
         short = "W" if nm.startswith("Sender-Thread") else "R" if nm.startswith("RequestReceiver") else nm
         self._lt = SCHED.spawn(short, self._target, self._args)
         SCHED.event("thread-start", self._lt.name)
+        # the new thread may run before its creator continues
+        SCHED.park(("after-start", self._lt.name))
 
     def join(self, timeout=None):
         lt = self._lt
@@ -478,6 +480,7 @@ class Socket:
         self.nwrites = 0
         self.close_calls = 0
         self.pending_writers = []
+        self.send_limit = 65536     # bytes one send() accepts (a nearly full socket buffer accepts fewer)
 
     def recv(self, n):
         SCHED.park(("recv",), cond=lambda: self.inbound or self.in_eof or self.closed)
@@ -530,7 +533,7 @@ class Socket:
         if self.fail_write_at is not None and self.nwrites >= self.fail_write_at:
             SCHED.event("send-fails", self.nwrites)
             raise BrokenPipeError(32, "Broken pipe")
-        part = bytes(data[:65536])
+        part = bytes(data[:self.send_limit])
         self.sent.append((SCHED.clock, part))
         SCHED.event("sent", part)
         return len(part)
